@@ -212,18 +212,36 @@ def run(prog: Program, res: Result) -> None:  # noqa: PLR0912, PLR0915
             res.fail("C01.R3", file=EX, line=infix.node.lineno, qualname="parse_infix_expression", construct=f"arm {op} not in BINARY_OPERATORS", message=f"parse_infix_expression has an arm for {op} which the Pratt loop never dispatches (missing from BINARY_OPERATORS)", what=f"arm {op} reachable")
     # sibling agreement of the primitive parsers
     def literal_arms(fn: FunctionInfo) -> dict[str, str]:
+        """test -> what the arm builds, with the token variable written `token` whatever it is called (parameter or local) and
+        `if not T: … else: ARM` read as the arm of T."""
+        import copy
+        from collections import Counter
+
+        subj = Counter(c.args[0].id for c in ast.walk(fn.node) if isinstance(c, ast.Call) and isinstance(c.func, ast.Name) and c.func.id.startswith("is_") and c.args and isinstance(c.args[0], ast.Name))
+        sname = subj.most_common(1)[0][0] if subj else "token"
+
+        def canon(e: ast.AST, limit: int = 300) -> str:
+            e2 = copy.deepcopy(e)
+            for x in ast.walk(e2):
+                if isinstance(x, ast.Name) and x.id == sname:
+                    x.id = "token"
+            return norm(e2, limit)
+
         out: dict[str, str] = {}
         for n_ in ast.walk(fn.node):
             if isinstance(n_, ast.If):
-                t = norm(n_.test)
+                test, body = n_.test, n_.body
+                if isinstance(test, ast.UnaryOp) and isinstance(test.op, ast.Not) and n_.orelse:
+                    test, body = test.operand, n_.orelse
+                t = canon(test)
                 if not (t.startswith("is_token_type(token, TokenType.") or t.startswith("is_") and "(token)" in t or t.startswith("token.value ==")):
                     continue
-                b = n_.body[0] if n_.body else None
+                b = body[0] if body else None
                 v = b.value if isinstance(b, (ast.Return, ast.Assign)) else None
                 if isinstance(b, ast.If):
                     continue
                 if v is not None:
-                    out[t] = norm(v, 300)
+                    out[t] = canon(v)
         return out
 
     a1, a2 = literal_arms(prog.fn(EX, "parse_primitive")), literal_arms(prog.fn(EX, "parse_boolean_primitive"))
